@@ -68,6 +68,9 @@ func hC14on(fsys fs.FileSystem, dir string, n, L, vlen int) {
 		got[i] = g
 		if g != nil {
 			vAssert(!vReachable(db, g), "C14.get.result-not-owned-by-db-or-file")
+			if r.present[i] && len(want[i]) == 0 {
+				vCover("C14.empty-value-returned")
+			}
 		}
 		small := make([]byte, 1, 1) // insufficient capacity
 		small[0] = 0x11
@@ -174,6 +177,10 @@ func hC14on(fsys fs.FileSystem, dir string, n, L, vlen int) {
 }
 
 func H_C14_q() { hC14(2, 2, 2) }
+
+// empty values: a zero-length result must not be a window into file-owned memory either
+func H_C14_empty()     { hC14(2, 2, 0) }
+func H_C14_emptymmap() { hC14on(fs.OSMMap, "c14emmap", 2, 2, 0) }
 
 // the memory-mapped and the plain OS file system over the kernel model: a result
 // that aliases a mapping is reachable from the DB, and reading it after Close
